@@ -178,7 +178,7 @@ def run_shard(ctx):
                             allow=('num', 'neg', 'bin', 'paren', 'call1', 'call2', 'cmp', 'ifexp', 'bool', 'verb', 'named'))
     for i in range(ctx.pick(80, 2000)):
         prog = rp.program()
-        lay = gen.Layout(rng, noise=rng.choice([0.0, 0.3]), breaks=rng.choice([0.0, 0.2]))
+        lay = gen.Layout(rng, noise=rng.choice([0.0, 0.3]), breaks=rng.choice([0.0, 0.2]), tight=rng.random() < 0.35)
         script = gen.render_program(prog, lay)
         nterms = sum(len(list(e.terms())) - 1 for e in prog.equations())
         ctx.evaluation(script, nontrivial=nterms > 0, sample={'script': script})
